@@ -38,6 +38,7 @@ def plan(tier, seed):
     n = 12 if q else 32
     specs = [{"kind": "rand", "i": i, "count": 70 if q else 600} for i in range(n)]
     specs += [{"kind": "poly", "i": i, "count": 6 if q else 40} for i in range(4 if q else 8)]
+    specs += [{"kind": "deep", "i": i, "count": 90 if q else 1200} for i in range(8 if q else 16)]
     specs += [{"kind": "cli", "i": i} for i in range(7 if q else 28)]
     specs.append({"kind": "corpus", "big": not q})
     return specs
@@ -240,6 +241,17 @@ def run(ctx, spec):
             check_case(ctx, case)
             if len(case["leafmap"]) >= 4:
                 ctx.sample(case)
+            if ctx.too_many():
+                return
+    elif spec["kind"] == "deep":
+        for k in range(spec["count"]):
+            ordered = k % 4 == 0
+            case = gen.deep_super_case(rng, ordered=ordered, max_obj=6 if ordered else 7, max_fam=4 if ordered else 5)
+            if k % 3 == 0:
+                case["costs"] = gen.random_cost(rng, coherent_only=False)
+            case.update(kind="c04", algos=["ext_spfs"] if ordered else ["superdtl", "base_uspfs"])
+            check_case(ctx, case)
+            ctx.count("deep_cases")
             if ctx.too_many():
                 return
     elif spec["kind"] == "poly":
